@@ -779,7 +779,7 @@ impl<'tcx> Cx<'tcx> {
             Some(d) => esc(&self.path(d.did)),
             None => "null".to_string(),
         };
-        let _ = write!(o, "],\"drop\":{}}}", drop);
+        let _ = write!(o, "],\"repr_c\":{},\"drop\":{}}}", def.repr().c(), drop);
         o
     }
 }
